@@ -328,6 +328,9 @@ def dist(
         return dist(p.project(q), q)
     if isinstance(p, PointTensor) and isinstance(q, SubspaceTensor):
         return dist(q.project(p), p)
+    if isinstance(p, PlaneTensor) and isinstance(q, PlaneTensor):
+        # parallel planes: distance from p to a finite point of q (the foot of the perpendicular from the origin)
+        return dist(p, q.project(Point(*[0] * q.dim)))
     if isinstance(p, SubspaceTensor) and isinstance(q, PlaneTensor):
         return dist(q, p)
     if isinstance(p, PlaneTensor) and isinstance(q, LineTensor):
